@@ -17,6 +17,7 @@ def run_one(sid, tier, in_repo=False):
     d = os.path.join(ROOT, "seeded", sid)
     meta = json.load(open(os.path.join(d, "meta.json")))
     prop = meta["property"]
+    checks = meta.get("checks") or [prop]
     out = tempfile.mkdtemp(prefix="verif-seeded-")
     env = dict(os.environ, VERIF_OUT_DIR=out)
     wt = None
@@ -43,8 +44,13 @@ def run_one(sid, tier, in_repo=False):
             json.dump({"Replace": repl}, open(ov, "w"))
             env["VERIF_OVERLAY"] = ov
         t0 = time.time()
-        p = subprocess.run([os.path.join(ROOT, "check"), prop, tier], cwd=ROOT, env=env,
-                           stdout=subprocess.PIPE, stderr=subprocess.STDOUT, text=True)
+        # a change may be caught by the check of another property that covers the same code (meta "checks")
+        for chk in checks:
+            p = subprocess.run([os.path.join(ROOT, "check"), chk, tier], cwd=ROOT, env=env,
+                               stdout=subprocess.PIPE, stderr=subprocess.STDOUT, text=True)
+            if p.returncode == 1 and ("VIOLATION property=%s" % chk) in p.stdout:
+                prop = chk
+                break
         dt = time.time() - t0
     finally:
         if in_repo:
